@@ -65,6 +65,7 @@ def run(prog, tier, extra=None):
     R1 = res.rule("C06.merkle", "Block::validate accept paths pass the equal edge of merkle_root vs generate_merkle_root(self)", floor=1)
     R2 = res.rule("C06.creator-signature", "Block::validate accept paths pass verify_signature(pre_hash, signature, creator)", floor=1)
     R3 = res.rule("C06.hash-coverage", "signed header / hash derivation read the commitment fields", floor=4)
+    R5 = res.rule("C06.merkle-positional", "a merkle parent hashes left ++ right with no ordering between the children", floor=1)
     R4 = res.rule("C06.verify-block", "verify_block forwards a fetched block only when decoded id and hash equal the advertised ones", floor=2)
 
     bv = BlockValidate(prog)
@@ -155,6 +156,60 @@ def run(prog, tier, extra=None):
                 okh = True
     if not okh:
         res.add(Finding(R3, "C06.hash-coverage|generate_hash", "generate_hash does not hash self.serialize_for_hash()", gh.loc(0)))
+
+    # R5: the commitment is positional: a parent node hashes left ++ right in that order, with no ordering/selection
+    # between the two children (otherwise swapping sibling transactions keeps the root)
+    ORDERING = ("cmp", "partial_cmp", "min", "max", "sort", "sort_unstable", "sort_by", "sort_by_key", "swap", "lt", "le", "gt", "ge", "reverse", "minmax")
+    merkle_bodies = [x for x in prog.all_bodies() if x.path.startswith(CORE + "consensus::merkle::MerkleTree::") and "::tests::" not in x.path]
+    hashing = []
+    for mb in merkle_bodies:
+        chm = Chaser(mb)
+        hash_calls = [bb for bb, t in mb.calls() if (call_name(t) or "").endswith("crypto::hash")]
+        if not hash_calls:
+            continue
+        # does it hash two child hashes? (reads two `hash` fields of tree nodes or takes two Option<[u8; 32]>)
+        srcs = []
+        for bb, t in mb.calls():
+            if (call_name(t) or "").rsplit("::", 1)[-1] in ("extend", "extend_from_slice", "append") and len(t["args"]) > 1:
+                srcs.append((bb, chm.origin(t["args"][1])))
+        child = srcs
+        if len(child) < 2:
+            continue
+        hashing.append(mb)
+        res.instance(R5)
+        name = mb.path.split("::")[-1]
+        bad = [call_name(t) for _, t in mb.calls() if (call_name(t) or "").rsplit("::", 1)[-1] in ORDERING]
+        # delegating to a helper that orders is the same thing
+        for _, t in mb.calls():
+            tgt = prog.bodies.get(t.get("res") or "")
+            if tgt is not None and tgt.path.startswith(CORE + "consensus::merkle::") and tgt.path != mb.path:
+                bad += [call_name(t2) for _, t2 in tgt.calls() if (call_name(t2) or "").rsplit("::", 1)[-1] in ORDERING]
+        order = mb.rpo()
+        pos = {b_: i for i, b_ in enumerate(order)}
+        child.sort(key=lambda c: pos.get(c[0], 1 << 30))
+        first, second = show(child[0][1]), show(child[1][1])
+        positional = ("left" in first and "right" in second) or ("left" not in second and "right" not in first and first != second)
+        if bad:
+            res.add(Finding(R5, "C06.merkle-positional|%s|ordering" % mb.path, "MerkleTree::%s orders or selects between the two child hashes (%s) before hashing: the root no longer "
+                            "commits to the order of sibling transactions" % (name, sorted(set(x.rsplit("::", 1)[-1] for x in bad))), mb.loc(hash_calls[0])))
+        elif not positional:
+            res.add(Finding(R5, "C06.merkle-positional|%s|swapped" % mb.path, "MerkleTree::%s hashes its children as (%s, %s), not left then right" % (name, first[:40], second[:40]), mb.loc(hash_calls[0])))
+        else:
+            res.sample({"rule": R5, "body": name, "hashed": [first[:50], second[:50]], "verdict": "left then right, no ordering between the children"})
+    # parents that delegate the combination to a helper
+    for mb in merkle_bodies:
+        if mb in hashing:
+            continue
+        for bb, t in mb.calls():
+            tgt = prog.bodies.get(t.get("res") or "")
+            if tgt in hashing and len(t["args"]) == 2:
+                chm = Chaser(mb)
+                a0, a1 = show(chm.origin(t["args"][0])), show(chm.origin(t["args"][1]))
+                res.instance(R5)
+                if "right" in a0 and "left" in a1:
+                    res.add(Finding(R5, "C06.merkle-positional|%s|swapped-args" % mb.path, "MerkleTree::%s passes (right, left) to the node hashing helper" % mb.path.split("::")[-1], mb.loc(bb)))
+    if not hashing:
+        res.add(Finding(R5, "C06.merkle-positional|none", "no MerkleTree body that hashes two child hashes was recognised (anchor moved?)", "saito-core/src/core/consensus/merkle.rs"))
 
     # R4
     vb = prog.body(CORE + "verification_thread::VerificationThread::verify_block::{closure#0}")
